@@ -302,7 +302,8 @@ class CFG:
             self._edge(exc_join, f, "exc")
             for n, lab in e:
                 for d in ctx.exc:
-                    self._edge(n, d, "exc")
+                    # re-raise after the finally body: keep the branch label of the dangling end
+                    self._edge(n, d, "exc:" + lab if lab in ("true", "false") else "exc")
         for lst, outer in ((ret_l, ctx.ret), (brk_l, ctx.brk), (cont_l, ctx.cont)):
             if lst:
                 f, e = finally_copy("jump")
@@ -318,10 +319,10 @@ class CFG:
 
     # ------------------------------------------------------------------- queries
     def succs(self, nid, exc=True):
-        return [(d, lab) for d, lab in self.succ[nid] if exc or lab != "exc"]
+        return [(d, lab) for d, lab in self.succ[nid] if exc or not lab.startswith("exc")]
 
     def preds(self, nid, exc=True):
-        return [(s, lab) for s, lab in self.pred[nid] if exc or lab != "exc"]
+        return [(s, lab) for s, lab in self.pred[nid] if exc or not lab.startswith("exc")]
 
     def ids_of(self, astnode):
         """All CFG nodes (finally copies included) whose statement is / contains astnode."""
